@@ -16,18 +16,32 @@
 (* ("race_lost") stays in the accept queue (quic-go returns it from Accept *)
 (* all the same); the close reaches the acceptor as a separate step.       *)
 (*                                                                         *)
+(* Relay: the paths in RelayPaths lead to the acceptor's TURN allocation,  *)
+(* i.e. to its second (relay) listener; the dialer tries them only after   *)
+(* every direct path has failed.  After authentication the dialer opens    *)
+(* its additional connections towards the address of the primary one, so   *)
+(* they arrive at the listener the primary came in on; the acceptor waits  *)
+(* for them on the listener it chooses (extraL).                           *)
+(*                                                                         *)
 (* Switches (TRUE = the pinned commit):                                    *)
 (*   RefillAfterTake  a dial goroutine that finishes after the caller took *)
 (*                    the winner out of the channel finds room in it,      *)
 (*                    declares itself the winner and is never closed       *)
 (*   CommitToFirst    the acceptor commits to the head of the accept queue *)
 (*                    even when the dialer has abandoned that connection   *)
+(*   ExtrasOnDirect   the acceptor always waits for the additional         *)
+(*                    connections on its direct listener (up to fix        *)
+(*                    3639207)                                             *)
 (***************************************************************************)
 EXTENDS Integers, Sequences, FiniteSets, TLC, Json
 
-CONSTANTS K, RefillAfterTake, CommitToFirst, Track
+CONSTANTS K, RefillAfterTake, CommitToFirst, Track,
+          RelayPaths,      \* subset of 1..K: candidates behind the acceptor's relay allocation
+          ExtrasOnDirect
 
 Paths == 1..K
+Direct == Paths \ RelayPaths
+ListenerOf(k) == IF k \in RelayPaths THEN "relay" ELSE "direct"
 
 VARIABLES
   reach,      \* set of reachable paths (chosen in Init)
@@ -42,29 +56,33 @@ VARIABLES
   primary,    \* 0 or the connection the acceptor took as primary
   apc,        \* acceptor: "accepting" | "auth" | "ok" | "fail"
   dpc,        \* dialer's caller: "probing" | "auth" | "ok" | "fail"
+  extraL,     \* "" | "direct" | "relay": the listener on which the acceptor waits for the additional connections
   lastAct, depth
 
-vars == <<reach, cpc, ch, decided, ret, cancelled, sdone, queue, closedSrv, primary, apc, dpc, lastAct, depth>>
+vars == <<reach, cpc, ch, decided, ret, cancelled, sdone, queue, closedSrv, primary, apc, dpc, extraL, lastAct, depth>>
 Step(a) == IF Track THEN lastAct' = a /\ depth' = depth + 1 ELSE UNCHANGED <<lastAct, depth>>
 
 Init ==
   /\ reach \in SUBSET Paths
   /\ cpc = [k \in Paths |-> "dialing"] /\ ch = 0 /\ decided = FALSE /\ ret = 0 /\ cancelled = FALSE
   /\ sdone = [k \in Paths |-> FALSE] /\ queue = <<>> /\ closedSrv = {} /\ primary = 0
-  /\ apc = "accepting" /\ dpc = "probing"
+  /\ apc = "accepting" /\ dpc = "probing" /\ extraL = ""
   /\ lastAct = [a |-> "init"] /\ depth = 0
 
 \* ---- dialing side -------------------------------------------------------------------
+\* the relay round starts when the direct round is over without a connection
+RoundOpen(k) == k \in Direct \/ \A d \in Direct : cpc[d] \in {"failed", "cancelled"}
+
 ClientDone(k) ==
-  /\ cpc[k] = "dialing" /\ k \in reach /\ ~cancelled
+  /\ cpc[k] = "dialing" /\ k \in reach /\ ~cancelled /\ RoundOpen(k)
   /\ cpc' = [cpc EXCEPT ![k] = "estab"]
-  /\ UNCHANGED <<reach, ch, decided, ret, cancelled, sdone, queue, closedSrv, primary, apc, dpc>>
+  /\ UNCHANGED <<reach, ch, decided, ret, cancelled, sdone, queue, closedSrv, primary, apc, dpc, extraL>>
   /\ Step([a |-> "ClientDone", k |-> k])
 
 DialFail(k) ==
-  /\ cpc[k] = "dialing" /\ (k \notin reach \/ cancelled)
+  /\ cpc[k] = "dialing" /\ (k \notin reach \/ cancelled) /\ (RoundOpen(k) \/ cancelled)
   /\ cpc' = [cpc EXCEPT ![k] = IF cancelled THEN "cancelled" ELSE "failed"]
-  /\ UNCHANGED <<reach, ch, decided, ret, cancelled, sdone, queue, closedSrv, primary, apc, dpc>>
+  /\ UNCHANGED <<reach, ch, decided, ret, cancelled, sdone, queue, closedSrv, primary, apc, dpc, extraL>>
   /\ Step([a |-> "DialFail", k |-> k])
 
 \* select { case resultCh <- conn: won; default: close }
@@ -73,33 +91,33 @@ Offer(k) ==
   /\ LET room == IF RefillAfterTake THEN ch = 0 ELSE ~decided IN
        IF room THEN ch' = k /\ decided' = TRUE /\ cpc' = [cpc EXCEPT ![k] = "inch"]
                ELSE cpc' = [cpc EXCEPT ![k] = "lost"] /\ UNCHANGED <<ch, decided>>
-  /\ UNCHANGED <<reach, ret, cancelled, sdone, queue, closedSrv, primary, apc, dpc>>
+  /\ UNCHANGED <<reach, ret, cancelled, sdone, queue, closedSrv, primary, apc, dpc, extraL>>
   /\ Step([a |-> "Offer", k |-> k, won |-> (IF RefillAfterTake THEN ch = 0 ELSE ~decided)])
 
 \* the caller's select takes the result; the deferred cancel stops the other dials
 Take ==
   /\ ret = 0 /\ ch # 0
   /\ ret' = ch /\ cpc' = [cpc EXCEPT ![ch] = "won"] /\ ch' = 0 /\ cancelled' = TRUE /\ dpc' = "auth"
-  /\ UNCHANGED <<reach, decided, sdone, queue, closedSrv, primary, apc>>
+  /\ UNCHANGED <<reach, decided, sdone, queue, closedSrv, primary, apc, extraL>>
   /\ Step([a |-> "Take", k |-> ch])
 
 AllFailed ==
   /\ ret = 0 /\ ch = 0 /\ \A k \in Paths : cpc[k] \in {"failed", "cancelled", "lost"}
   /\ ret' = -1 /\ dpc' = "fail" /\ cancelled' = TRUE
-  /\ UNCHANGED <<reach, cpc, ch, decided, sdone, queue, closedSrv, primary, apc>>
+  /\ UNCHANGED <<reach, cpc, ch, decided, sdone, queue, closedSrv, primary, apc, extraL>>
   /\ Step([a |-> "AllFailed"])
 
 \* ---- accepting side -----------------------------------------------------------------
 ServerDone(k) ==
   /\ cpc[k] \in {"estab", "inch", "won", "lost"} /\ ~sdone[k]
   /\ sdone' = [sdone EXCEPT ![k] = TRUE] /\ queue' = Append(queue, k)
-  /\ UNCHANGED <<reach, cpc, ch, decided, ret, cancelled, closedSrv, primary, apc, dpc>>
+  /\ UNCHANGED <<reach, cpc, ch, decided, ret, cancelled, closedSrv, primary, apc, dpc, extraL>>
   /\ Step([a |-> "ServerDone", k |-> k])
 
 CloseArrives(k) ==
   /\ cpc[k] = "lost" /\ sdone[k] /\ k \notin closedSrv
   /\ closedSrv' = closedSrv \cup {k}
-  /\ UNCHANGED <<reach, cpc, ch, decided, ret, cancelled, sdone, queue, primary, apc, dpc>>
+  /\ UNCHANGED <<reach, cpc, ch, decided, ret, cancelled, sdone, queue, primary, apc, dpc, extraL>>
   /\ Step([a |-> "CloseArrives", k |-> k])
 
 AcceptPrimary ==
@@ -108,7 +126,7 @@ AcceptPrimary ==
   /\ IF ~CommitToFirst /\ Head(queue) \in closedSrv
        THEN UNCHANGED <<primary, apc>>                           \* abandoned before it was accepted: skip it
        ELSE primary' = Head(queue) /\ apc' = "auth"
-  /\ UNCHANGED <<reach, cpc, ch, decided, ret, cancelled, sdone, closedSrv, dpc>>
+  /\ UNCHANGED <<reach, cpc, ch, decided, ret, cancelled, sdone, closedSrv, dpc, extraL>>
   /\ Step([a |-> "AcceptPrimary", k |-> Head(queue)])
 
 \* authentication on an abandoned connection fails at once (stream accept returns the peer's close)
@@ -116,12 +134,13 @@ AuthOnClosed ==
   /\ apc = "auth" /\ primary \in closedSrv
   /\ IF CommitToFirst THEN apc' = "fail" /\ UNCHANGED primary
                       ELSE apc' = "accepting" /\ primary' = 0   \* go back to accepting
-  /\ UNCHANGED <<reach, cpc, ch, decided, ret, cancelled, sdone, queue, closedSrv, dpc>>
+  /\ UNCHANGED <<reach, cpc, ch, decided, ret, cancelled, sdone, queue, closedSrv, dpc, extraL>>
   /\ Step([a |-> "AuthOnClosed"])
 
 AuthOK ==
   /\ apc = "auth" /\ dpc = "auth" /\ primary = ret
   /\ apc' = "ok" /\ dpc' = "ok"
+  /\ extraL' = IF ExtrasOnDirect THEN "direct" ELSE ListenerOf(primary)
   /\ UNCHANGED <<reach, cpc, ch, decided, ret, cancelled, sdone, queue, closedSrv, primary>>
   /\ Step([a |-> "AuthOK"])
 
@@ -131,14 +150,14 @@ AuthSplitTimeout ==
   /\ apc = "auth" /\ dpc = "auth" /\ primary # ret /\ primary \notin closedSrv /\ cpc[primary] # "lost"
   /\ \A k \in Paths : cpc[k] \notin {"dialing", "estab"}
   /\ apc' = "fail" /\ dpc' = "fail"
-  /\ UNCHANGED <<reach, cpc, ch, decided, ret, cancelled, sdone, queue, closedSrv, primary>>
+  /\ UNCHANGED <<reach, cpc, ch, decided, ret, cancelled, sdone, queue, closedSrv, primary, extraL>>
   /\ Step([a |-> "AuthSplitTimeout"])
 
 \* the dialer's authentication times out because the acceptor has given up
 DialerAuthAlone ==
   /\ dpc = "auth" /\ apc = "fail"
   /\ dpc' = "fail"
-  /\ UNCHANGED <<reach, cpc, ch, decided, ret, cancelled, sdone, queue, closedSrv, primary, apc>>
+  /\ UNCHANGED <<reach, cpc, ch, decided, ret, cancelled, sdone, queue, closedSrv, primary, apc, extraL>>
   /\ Step([a |-> "DialerAuthAlone"])
 
 Next ==
@@ -158,10 +177,12 @@ OneConnection == (ret # 0 /\ DialsSettled) =>
 SameConnection == (apc = "ok" \/ dpc = "ok") => primary = ret
 \* the accepting side never gives up while the dialing side holds a connection
 NoSplit == ret > 0 => apc # "fail"
+\* the additional connections of the transfer meet: the acceptor waits where the dialer's extra connections arrive
+ExtrasMeet == (apc = "ok" /\ dpc = "ok") => extraL = ListenerOf(ret)
 \* with a reachable address both sides get there
 Converges == <>((ret > 0 /\ apc = "ok" /\ dpc = "ok") \/ ret = -1)
 
-View == <<reach, cpc, ch, decided, ret, cancelled, sdone, queue, closedSrv, primary, apc, dpc>>
+View == <<reach, cpc, ch, decided, ret, cancelled, sdone, queue, closedSrv, primary, apc, dpc, extraL>>
 Emit == PrintT("E " \o ToJson([act |-> lastAct', d |-> depth', pk |-> ToString(View), qk |-> ToString(View'),
                                x |-> [reach |-> reach, ret |-> ret', primary |-> primary', apc |-> apc', dpc |-> dpc', cpc |-> cpc']]))
 =============================================================================
